@@ -81,12 +81,7 @@ StepCall(e) ==
   LET k     == e.kind
       a     == e.a
       scope == IF k \in StatementKinds THEN "statement" ELSE "extra"
-      T0    == {e.trusted[i].h : i \in {j \in 1..Len(e.trusted) : e.trusted[j].h <= C.tip /\ e.trusted[j].hash = C.blocks[e.trusted[j].h].bid.hash}}
-      \* named deviation: a block verified backwards whose (never examined) commit carries a malformed
-      \* PartSetHeader is saved but cannot be read back from the store (LightBlockFromProto validates);
-      \* its header WAS verified when the primary served the chain's header for that height
-      T     == T0 \cup (IF e.relayed /\ k \in ProviderKinds /\ Backwards(C, a) /\ e.asked
-                            /\ HeaderHash(C, e.sent.header) = C.blocks[a.h].bid.hash THEN {a.h} ELSE {})
+      T     == {e.trusted[i].h : i \in {j \in 1..Len(e.trusted) : e.trusted[j].h <= C.tip /\ e.trusted[j].hash = C.blocks[e.trusted[j].h].bid.hash}}
       offchain == \E i \in 1..Len(e.trusted) : e.trusted[i].h > C.tip \/ e.trusted[i].hash # C.blocks[e.trusted[i].h].bid.hash
       expSent  == EffSent(C, k, a, e.f)
       rl    == Relay(C, k, a, e.sent)
@@ -102,9 +97,9 @@ StepCall(e) ==
   /\ viol' = viol
        \cup FailIf(IF e.relayed THEN ~strict ELSE FALSE,
                    [l |-> l, inv |-> "RelaySound", scope |-> scope,
-                    class |-> IF e.relayed /\ cons THEN (IF k = "Tx" THEN "Tx:result_unproven"
-                                                       ELSE IF k = "Commit" THEN "Commit:backwards_commit_unverified"
-                                                       ELSE "Validators:address_unbound")
+                    class |-> IF e.relayed /\ cons THEN (IF k = "Tx" THEN "Tx:result_unproven" ELSE "Validators:address_unbound")
+                              ELSE IF k = "Commit" /\ e.relayed /\ Backwards(C, a) /\ ConsCommitHdr(C, T, e.got)
+                                   THEN "Commit:backwards_commit_unverified"        \* the defect repaired by 88ebf12
                               ELSE k \o ":" \o (IF e.changed THEN LieClass(e.f) ELSE "honest")])
        \cup FailIf(e.f = NoLie /\ ~e.relayed,
                    [l |-> l, inv |-> "RelayComplete", scope |-> scope,
